@@ -727,7 +727,9 @@ unsigned int CppCheck::checkClang(const FileWithDetails &file)
     }
 #endif
 
-    const std::string args2 = "-fsyntax-only -Xclang -ast-dump -fno-color-diagnostics " +
+    // -fno-caret-diagnostics: without it clang ends with "N warnings generated." on stderr while the tail of
+    // the AST dump is still in its stdout buffer, so with "2>&1" that line lands in the middle of an AST line
+    const std::string args2 = "-fsyntax-only -Xclang -ast-dump -fno-color-diagnostics -fno-caret-diagnostics " +
                               getClangFlags(mSettings, file.lang()) +
                               file.spath();
     const std::string redirect2 = clangStderr.empty() ? "2>&1" : ("2> " + clangStderr);
